@@ -19,14 +19,15 @@ def Good (s : S) : Prop :=
   (s.pc = .allocated → s.st = 0) ∧ (s.pc = .live → s.st ≥ 1) ∧ (s.pc = .detached → s.st ≥ 1) ∧
   (s.pc = .unusedDone → s.st = 0) ∧ (s.pc = .resetDone → s.st = 0 ∧ s.cbGen = none) ∧
   (s.st ≥ 1 → s.loc = .owned ∧ s.cbGen = some s.gen) ∧ s.st ≤ 2 ∧
-  (s.loc = .owned → s.fdOpen = true)
+  (s.loc = .owned → s.fdOpen = true) ∧
+  (∀ g, s.writer = some g → g = s.gen ∧ s.loc = .owned ∧ (s.pc = .live ∨ s.pc = .detached) ∧ s.kind = .conn ∧ s.stopped = false)
 
 theorem good_init : Good init := by
   simp [Good, init]
 
 /-- one step preserves the invariant, provided stale Release calls carry the IsActive guard. -/
 theorem good_step (s s' : S) (a : Act) (h : Good s) (hg : guardedAct a = true) (hs : step s a = some s') : Good s' := by
-  obtain ⟨loc, st, gen, pc, cbGen, registered, inBatch, pending, pollerHolds, staleHolds, ownerHolds, bad, fdOpen, hupq⟩ := s
+  obtain ⟨loc, st, gen, pc, cbGen, registered, inBatch, pending, pollerHolds, staleHolds, ownerHolds, bad, fdOpen, hupq, kind, writer, stopped⟩ := s
   cases a <;> simp only [step, guardedAct] at hs hg <;> (repeat' split at hs) <;> (try cases hs) <;>
     (try (simp only [Good] at *; grind))
 
@@ -36,7 +37,7 @@ def QOk (s : S) : Prop := ∀ g ∈ s.hupq, g ≤ s.gen
 theorem qok_init : QOk init := by simp [QOk, init]
 
 theorem qok_step (s s' : S) (a : Act) (h : QOk s) (hs : step s a = some s') : QOk s' := by
-  obtain ⟨loc, st, gen, pc, cbGen, registered, inBatch, pending, pollerHolds, staleHolds, bad, fdOpen, hupq⟩ := s
+  obtain ⟨loc, st, gen, pc, cbGen, registered, inBatch, pending, pollerHolds, staleHolds, ownerHolds, bad, fdOpen, hupq, kind, writer, stopped⟩ := s
   simp only [QOk] at h
   cases a <;> simp only [step] at hs <;> (repeat' split at hs) <;> (try cases hs) <;> simp only [QOk] <;> intro g hg
   all_goals first
